@@ -746,6 +746,39 @@ def base_follow_status(transport: str, cfg: dict) -> int:
     return 0
 
 
+def _reduced_kind(transport: str, sp: list) -> bool:
+    k = sp[0]
+    if k == "flip":
+        return sp[2] in (0, 7)
+    if k == "hdrflip":
+        return sp[3] == 0 and sp[2] in (0, 2)
+    if k == "short":
+        return sp[2] == 1
+    return k in ("drop", "pause", "nak", "abort", "dup", "truncate", "empty")
+
+
+def _trace_with(transport: str, cfg: dict, pre: list, op: tuple, faults: list) -> Optional[dict]:
+    """Trace (stream extent, frames / report lengths) of the operation run WITH the given faults; None if it does not end."""
+    CLOCK.__init__()
+    dev, link, fake, mb = make_any(transport, cfg, faults)
+    mb.open()
+    for h in pre:
+        run_op(dev, mb, h, cfg)
+    start = len(link.out)
+    serial = transport.endswith("serial")
+    fstart = len(link.frames_sent) if serial else 0
+    try:
+        obs = run_op(dev, mb, op, cfg)
+    except Horizon:
+        return None
+    if obs.get("horizon"):
+        return None
+    return {"start": start, "end": len(link.out),
+            "replen": [len(r) for r in link.out[start:]] if not serial else None,
+            "repid": [r[0] if r else -1 for r in link.out[start:]] if not serial else None,
+            "frames": [f for f in link.frames_sent[fstart:]] if serial else None}
+
+
 def w_fault(task: dict) -> dict:
     transport, cfg, pre, op = task["transport"], task["cfg"], task["pre"], tuple(task["op"])
     base = clean_trace(transport, cfg, pre, op)
@@ -756,6 +789,20 @@ def w_fault(task: dict) -> dict:
     viol = []
     outcomes: dict[str, int] = {}
     n = 0
+    # two faults per execution (thorough, selected operations): the second fault ranges over the stream AS IT IS AFTER the
+    # first one (retries, re-sent frames), positions strictly behind the first; both from a reduced kind alphabet
+    if task.get("double"):
+        singles = [sp for sp in specs if _reduced_kind(transport, sp)]
+        i, k = task["double"]
+        specs = []
+        for f1 in singles[i::k]:
+            t1 = _trace_with(transport, cfg, pre, op, [f1])
+            if t1 is None:
+                continue
+            p1 = f1[1]
+            for f2 in fault_specs(transport, t1):
+                if f2[1] > p1 and _reduced_kind(transport, f2):
+                    specs.append([f1, f2])
     for spec in specs:
         faults = spec if spec and isinstance(spec[0], list) else [spec]
         CLOCK.__init__()
@@ -870,6 +917,16 @@ def run(ctx: core.Ctx) -> None:
             for pre in ([[]] if ctx.tier == "quick" else [[], [("swrite_file", 0x100, 1)]]):
                 for op in sdp_fault_ops:
                     ftasks.append({"transport": t, "cfg": c, "pre": [list(p) for p in pre], "op": list(op)})
+    if ctx.tier == "thorough":
+        dbl_ops = [("get_property", 1), ("read", 0x10, 31), ("write", 0x10, 31), ("fill", 0x40, 8, 0xA5A5A5A5), ("sb", 70), ("read_once", 3)]
+        for t in ("serial", "hid"):
+            for op in dbl_ops:
+                for i in range(16):
+                    ftasks.append({"transport": t, "cfg": {"max_packet": 32}, "pre": [], "op": list(op), "double": [i, 16]})
+        for t in ("sdp-serial", "sdp-hid"):
+            for op in (("sread", 4, 4), ("swrite", 0x40, 0x11223344, 4, 32), ("swrite_file", 0x200, 64)):
+                for i in range(8):
+                    ftasks.append({"transport": t, "cfg": {}, "pre": [], "op": list(op), "double": [i, 8]})
     fo: dict[str, int] = {}
     for case, res in ctx.pool_map(w_fault, ftasks, timeout=1500, chunksize=1, initfn=install_clock, check_det=1):
         if ctx.out_of_budget():
@@ -893,7 +950,9 @@ def run(ctx: core.Ctx) -> None:
                 "size, open flag, SB sink length); faults: for every listed single operation (from 2-4 pre-histories) every byte offset of "
                 "the device->host stream x {8 bit flips, drop, truncate, insert 0x00, short read} and every frame x {NAK, ABORT, duplicate} "
                 "(serial) / every report x {drop, truncate, zero-length, duplicate, empty, short, 32 header bit flips} (HID); every execution "
-                "runs the real McuBoot stack; distinct_nontrivial = canonical states reached")
+                "runs the real McuBoot stack; thorough adds two faults per execution for 6 McuBoot and 3 SDP operations: first fault from a "
+                "reduced kind alphabet at every position, second fault at every later position of the stream as it is after the first; "
+                "distinct_nontrivial = canonical states reached")
     ctx.assumptions += ["the reference bootloader in vf/ref/mboot_dev.py is the protocol definition (written from the documented framing and packet layouts)",
                         "USB-HID payload corruption is undetectable by any host (no checksum in the report) and is not injected; header/length/"
                         "sequence faults are", "SDP has no checksum at all: value faults are injected into HAB/completion words only, duplicated words/reports are not injected (indistinguishable from data)", "SDPS and the buspal/usbsio/CAN/SDIO device classes are not explored"]
